@@ -51,8 +51,13 @@ def run_axis_case(case):
     array = redcase.concretize(vals, "f8").reshape(shape)
     by = redcase.label_array(codes, "float").reshape(bshape)
     exp = np.array([redcase.LABELS["float"][t] for t in range(NLAB)])
-    kw = dict(func=case["func"], axis=tuple(case["axis"]) if len(case["axis"]) > 1 else case["axis"][0], expected_groups=exp,
+    kw = dict(func=case["func"], axis=tuple(case["axis"]) if len(case["axis"]) > 1 else case["axis"][0],
               fill_value=redcase.fill_concrete(case["fill"]))
+    slots = list(range(NLAB))
+    if case.get("with_expected", True):
+        kw["expected_groups"] = exp
+    else:
+        slots = sorted({c for c in codes if c >= 0})      # nothing requested: one slot per label present anywhere
     if case.get("engine"):
         kw["engine"] = case["engine"]
     out = dict(case)
@@ -73,7 +78,8 @@ def run_axis_case(case):
         a = len(shape)
         red = sorted({ax % a for ax in case["axis"]})
         kept = [ax for ax in range(a) if ax not in red]
-        want = [shape[ax] for ax in kept] + [NLAB]
+        want = [shape[ax] for ax in kept] + [len(slots)]
+        out["slots"] = slots
         out["want_shape"] = want
         slices = []
         if list(r.shape) == want:
@@ -97,7 +103,7 @@ def run_axis_case(case):
     return out
 
 
-def build(shape_b, axis_sel, order, sign, func, vsel, lsel, fillsel, mode, engine):
+def build(shape_b, axis_sel, order, sign, func, vsel, lsel, fillsel, mode, engine, with_expected=True):
     shape, b = shape_b
     a = len(shape)
     bdims = list(range(a - b, a))
@@ -113,7 +119,7 @@ def build(shape_b, axis_sel, order, sign, func, vsel, lsel, fillsel, mode, engin
     if engine == "flox" and func in redcase.ARG_FUNCS:
         return None
     c = {"func": func, "shape": list(shape), "bndim": b, "axis": axis, "vsel": vsel, "lsel": lsel,
-         "fill": [[0, 0], [-1, 1]][fillsel] if func not in redcase.ARG_FUNCS else [-1, 1], "engine": engine}
+         "fill": [[0, 0], [-1, 1]][fillsel] if func not in redcase.ARG_FUNCS else [-1, 1], "engine": engine, "with_expected": with_expected}
     if mode != "eager":
         chunked, method, by_dask = mode
         c["chunked"] = chunked % (2 ** a) or 1
@@ -125,6 +131,8 @@ def build(shape_b, axis_sel, order, sign, func, vsel, lsel, fillsel, mode, engin
             return None
         if by_dask and method == "cohorts":
             return None
+        if by_dask and not with_expected:
+            return None
     return c
 
 
@@ -132,7 +140,8 @@ def run(ctx):
     models.factorize(ctx)
     modes = ["eager", "eager"] + [(ch, m, d) for ch in (1, 2, 3, 5, 7, 15) for m in (None, "map-reduce", "cohorts") for d in (False, True)]
     sp = gen.Space("axes", {"shape_b": SHAPES, "axis_sel": range(7), "order": [False, True], "sign": [False, True], "func": FUNCS, "vsel": range(4),
-                            "lsel": range(5), "fillsel": range(2), "mode": modes, "engine": [None, "numpy", "flox"]}, build)
+                            "lsel": range(5), "fillsel": range(2), "mode": modes, "engine": [None, "numpy", "flox"],
+                            "with_expected": [True, False]}, build)
     budget = 5000 if ctx.tier == "quick" else 120000
     cases = sp.sample(ctx.rng, budget)
     ctx.cov["space"] = {"axes": sp.size}
@@ -143,7 +152,7 @@ def run(ctx):
     lines, owner = [], {}
     for rec in recs:
         ctx.cov["evaluations"] += 1
-        brief = {k: rec.get(k) for k in ("func", "shape", "bndim", "axis", "vsel", "lsel", "fill", "engine", "chunked", "method", "by_dask", "exc", "msg")}
+        brief = {k: rec.get(k) for k in ("func", "shape", "bndim", "axis", "vsel", "lsel", "fill", "engine", "chunked", "method", "by_dask", "with_expected", "exc", "msg")}
         if "exc" in rec:
             if rec["exc"] == "ProjectionError":
                 raise MachineryFailure(f"projection: {rec['msg']}")
@@ -156,7 +165,7 @@ def run(ctx):
             ctx.violation(brief, "shape", {"want": rec["want_shape"], "got": rec["rshape"], "announced": rec.get("announced_shape")})
             continue
         for s in rec["slices"]:
-            r = {"func": rec["func"], "vals": s["vals"], "codes": s["codes"], "req": list(range(NLAB)), "fill": rec["fill"], "groups": list(range(NLAB)),
+            r = {"func": rec["func"], "vals": s["vals"], "codes": s["codes"], "req": rec["slots"], "fill": rec["fill"], "groups": rec["slots"],
                  "out": s["out"], "sort": True, "ddof": 0}
             line = redcase.tlc_record(r, len(lines))
             owner[line["id"]] = (brief, s)
@@ -183,7 +192,7 @@ def run(ctx):
 
 
 def replay(ctx, payload):
-    case = {k: v for k, v in payload["case"].items() if k in ("func", "shape", "bndim", "axis", "vsel", "lsel", "fill", "engine", "chunked", "method", "by_dask")}
+    case = {k: v for k, v in payload["case"].items() if k in ("func", "shape", "bndim", "axis", "vsel", "lsel", "fill", "engine", "chunked", "method", "by_dask", "with_expected")}
     rec = run_axis_case(case)
     print({k: v for k, v in rec.items() if k not in ("slices",)})
     return 0
